@@ -27,7 +27,7 @@ def plan(tier):
 
 
 def floors(tier):
-    return {"distinct_nontrivial": 300, "snapshots_compared": 5000, "fill_candles_checked": 2000, "entries_seen": 4}
+    return {"distinct_nontrivial": 300, "snapshots_compared": 5000, "fill_candles_checked": 2000, "entries_seen": 5}
 
 
 def gen_case(rng, tier, idx):
